@@ -14,6 +14,12 @@ Added after the second and third seeding rounds:
   proposal-carried-across-version-sets   the fold over a later union member starts from the running proposal
   variables-not-edited-after-construction the per-version-set variable lists stored for decide() are never mutably borrowed
   first-then-others                       a union is stored as [first, others...] whether built by fold or by a loop
+
+Added after the fifth seeding round:
+  union-order/push-appends-in-order, as-slice-exposes-every-variant  the sequence type unions are stored in (SmallVec) appends at
+                    the end across its One -> Two -> Flexible transitions and exposes every element (unions in the tests have two members)
+  candidate-lists / core(verdict)  the lists the ranking is applied to are the provider's, and the solver adds no restriction that
+                    does not follow from the problem (rules/core.py; seeds C08-13, C08-15)
 """
 from common import *
 import q, enc, mech, c20
